@@ -218,8 +218,12 @@ pub fn syntax_to_semantic<T: SourceTrait>(
             // It is probably possible to encapsulate the manipulations of (context, errors).
             // But I have not made much of an attempt to do so.
             synast::Stmt::Include(include) => {
-                let file: synast::FilePath = include.file().unwrap();
-                let file_path = file.to_string().unwrap();
+                // An include whose path literal cannot be evaluated (e.g. it contains an invalid
+                // escape sequence) was skipped when reading included files. Report it and go on.
+                let Some(file_path) = include.file().and_then(|file| file.to_string()) else {
+                    context.insert_error(InvalidFilename, &include);
+                    continue;
+                };
                 if file_path == "stdgates.inc" {
                     // We do not use a file for standard library, but rather create the symbols.
                     context.standard_library_gates(&include);
